@@ -5,7 +5,7 @@ import os
 import time
 
 VERIF = os.path.dirname(os.path.dirname(os.path.abspath(__file__)))
-EVID = os.path.join(VERIF, "evidence")
+EVID = os.environ.get("MLX_EVID_DIR") or os.path.join(VERIF, "evidence")
 KNOWN = os.path.join(VERIF, "known_findings.txt")
 
 
